@@ -132,6 +132,63 @@ Theorem C01_weighted_dispatch_exact : forall cum prev p1 r1 r2 an ps,
 Proof. exact weighted_dispatch_exact. Qed.
 Print Assumptions C01_weighted_dispatch_exact.
 
+(* 8. stored patch radii.  The radius stored with a patch is measured around the STORED centre
+      (the externally given one when centres are given): it covers every object of the patch,
+      it is the least non-negative radius doing so, the extent the linkage derives from several
+      catalogs (radius + offset of their centre) covers the objects of each of them, and with these
+      radii an unlinked patch pair holds no pair in (lo,hi] - wherever the data sit relative to the
+      centres (one-sided, crescent, centre outside the hull of the data).  A radius measured around
+      any other point (the mean of the data while the given centre is stored) is refuted. *)
+Theorem C01_radius_covers : forall (P : Type) (ang : P -> P -> Q) c (A : list (P * Q)) a,
+  In a A -> ang (fst a) c <= radius_of ang c A.
+Proof. exact @radius_of_covers. Qed.
+Print Assumptions C01_radius_covers.
+
+Theorem C01_radius_least : forall (P : Type) (ang : P -> P -> Q) c (A : list (P * Q)) r,
+  0 <= r -> (forall a, In a A -> ang (fst a) c <= r) -> radius_of ang c A <= r.
+Proof. exact @radius_of_least. Qed.
+Print Assumptions C01_radius_least.
+
+Theorem C01_extent_covers : forall (P : Type) (ang : P -> P -> Q),
+  (forall a b, ang a b == ang b a) -> (forall a b c, ang a c <= ang a b + ang b c) ->
+  forall c (cats : list (P * list (P * Q))) c' A a,
+  In (c', A) cats -> In a A -> ang (fst a) c <= extent_of ang c cats.
+Proof. exact @extent_covers. Qed.
+Print Assumptions C01_extent_covers.
+
+Theorem C01_prune_sound_stored_radii : forall (P : Type) (ang : P -> P -> Q),
+  (forall a b, ang a b == ang b a) -> (forall a b c, ang a c <= ang a b + ang b c) ->
+  forall ci cj (catsi catsj : list (P * list (P * Q))) c1 c2 A B M lo hi,
+  In (c1, A) catsi -> In (c2, B) catsj ->
+  ~ (ang ci cj <= extent_of ang ci catsi + extent_of ang cj catsj + M) -> hi <= M ->
+  w_in lo hi (pairs_of ang A B) == 0.
+Proof. exact @prune_sound_stored_radii. Qed.
+Print Assumptions C01_prune_sound_stored_radii.
+
+(* radii measured around mi, mj instead of the stored centres ci, cj: objects assigned to the
+   nearest centre, patch pair unlinked, yet it holds a pair inside (lo, hi] *)
+Theorem C01_prune_offcentre_radius_refuted :
+  exists (ang : Q -> Q -> Q) ci cj mi mj M lo hi (A B : list (Q * Q)),
+    (forall a b, ang a b == ang b a) /\ (forall a b c, ang a c <= ang a b + ang b c) /\
+    (forall a, In a A -> ang (fst a) ci <= ang (fst a) cj) /\
+    (forall b, In b B -> ang (fst b) cj <= ang (fst b) ci) /\
+    ~ (ang ci cj <= radius_of ang mi A + radius_of ang mj B + M) /\ hi <= M /\
+    ~ w_in lo hi (pairs_of ang A B) == 0.
+Proof. exact prune_offcentre_radius_refuted. Qed.
+Print Assumptions C01_prune_offcentre_radius_refuted.
+
+(* on the correspondence scale (squared chords): the model radius covers; a passing coverage case
+   of the harness means every object of every patch lies within the stored radius' threshold *)
+Theorem C01_radius2_covers : forall c A, covered c (radius2 c A) A = true.
+Proof. exact radius2_covers. Qed.
+Print Assumptions C01_radius2_covers.
+
+Theorem C01_cover_case_sound : forall C cens tlo thi i o,
+  c01_cover_case C cens tlo thi = 0%nat -> (i < length cens)%nat -> In o (sel C i None) ->
+  dist2 o (nth i cens obj_origin) <= nth i thi 0.
+Proof. exact cover_case_sound. Qed.
+Print Assumptions C01_cover_case_sound.
+
 (* non-vacuity: a 9-edge grid (per-bin branch) and a 3-edge grid (cumulative branch) on four
    pairs: the slice over edges 1..2 is the weight in (r_1, r_2] *)
 Example C01_concrete :
